@@ -64,7 +64,7 @@ inline std::vector<float> alphabet(unsigned n) {
     std::vector<float> a = {0.f, 1.f, -1.f, 2.f, -2.f, m, -m, 0.25f, -0.25f, 0.5f, -0.5f, 0.75f, -0.75f, 1.5f, -1.5f,
                             1.f + 1.1920929e-7f, 1.f - 5.9604645e-8f, -1.f + 5.9604645e-8f, 1e-6f, -1e-6f,
                             5.9604645e-8f, -5.9604645e-8f, 0.99999994f, -0.99999994f, m - 0.5f, -(m - 0.5f), 2.3125f, -1.6875f,
-                            0.333333343f, -0.666666687f};
+                            0.333333343f, -0.666666687f, 5e-4f, 1.0005f, -1.9997f, 0.9995f, -0.0005f};
     return a;
 }
 
